@@ -115,6 +115,12 @@ CHECKS = {
          "non-blocking calls must not poll, timed calls that cannot proceed must fail with timed-out not before T, untimed blocking calls return only when they can proceed, calls on a closed socket fail with not-available without any "
          "libc call carrying a descriptor (a decoy descriptor reusing the number stays intact), close() happens exactly once per socket, new and accepted descriptors carry FD_CLOEXEC.",
     note="Four known findings: timed receive on a datagram socket after shutdown(read) spins forever. Kernel-dependent outcomes are executed but not judged."),
+ "C09": dict(cat="exploration", ref="§3 C09",
+    technique="runtime stream/datagram integrity monitor (keyed generator compared on the fly by reported byte counts) under link-time (--wrap) fault injection into send/recv/sendto/recvfrom/poll/connect/accept; fork-guarded peer-gone cases; ASan, plain, TSan",
+    text="Two-thread TCP sessions (IPv4/IPv6, blocking and non-blocking, 1 B..32 MiB, chunk and buffer sizes 1 B..1 MiB, 4 KiB socket buffers, slow receivers) and UDP exchanges with truncating buffers run while 0-50% of the "
+         "underlying libc calls return EINTR, EAGAIN, short counts or spurious readiness; the received stream must equal the sent stream, datagrams must be one sent datagram cut to the buffer with the right sender address, "
+         "blocking calls must not surface would-block/interrupted errors, and writing to a vanished peer must end in an error return, never in a signal.",
+    note="Loopback only; injected conditions are ones the kernel may legally produce on non-blocking descriptors."),
 }
 
 NOT_YET = {}
